@@ -53,14 +53,17 @@ theorem a85Fin_le (L n : Nat) (g o) : a85Fin L n g = .ok o → o.length ≤ L - 
 theorem a85Fin_mono (L L' n : Nat) (g o) : a85Fin L n g = .ok o → n + o.length ≤ L' →
     a85Fin L' n g = .ok o := by
   unfold a85Fin
-  intro h hl
-  split at h
-  · exact h
-  · split at h
-    · split at h
+  by_cases hg : g.isEmpty = true
+  · rw [if_pos hg, if_pos hg]; intro h _; exact h
+  · rw [if_neg hg, if_neg hg]
+    cases a85Value (g ++ List.replicate (5 - g.length) 117) with
+    | ok v =>
+      simp only []
+      intro h hl
+      split at h
       · cases h
       · cases h; rw [if_neg (by omega)]
-    all_goals cases h
+    | _ => intro h; cases h
 
 theorem a85Go_le (L : Nat) : ∀ n g cs o, a85Go L n g cs = .ok o → o.length ≤ L - n := by
   intro n g cs
@@ -83,7 +86,145 @@ theorem a85Go_mono (L L' : Nat) : ∀ n g cs o, a85Go L n g cs = .ok o → n + o
     simp at hl
     have := ih _ h1 (by omega)
     simp [this, Res.pre]
-    trace_state
-    sorry
+    repeat' (first | omega | split | (simp_all; done))
+
+/-! ### RunLength -/
+
+theorem rlGo_le (L : Nat) : ∀ fuel n d o, rlGo L fuel n d = .ok o → o.length ≤ L - n := by
+  intro fuel n d
+  fun_induction rlGo L fuel n d <;> intro o h
+  all_goals (try simp_all)
+  all_goals
+    rw [Res.pre_ok] at h; obtain ⟨o', h1, rfl⟩ := h
+    rename_i ih; have := ih _ h1; simp; omega
+
+theorem rlGo_mono (L L' : Nat) : ∀ fuel n d o, rlGo L fuel n d = .ok o → n + o.length ≤ L' →
+    rlGo L' fuel n d = .ok o := by
+  intro fuel n d
+  fun_induction rlGo L fuel n d <;> intro o h hl
+  all_goals (try simp_all [rlGo])
+  all_goals
+    rw [Res.pre_ok] at h; obtain ⟨o', h1, rfl⟩ := h
+    rename_i ih
+    simp at hl
+    have := ih _ h1 (by omega)
+    simp [this, Res.pre]
+    repeat' (first | omega | split | (simp_all; done))
+
+/-! ### LZW -/
+
+theorem lzwGo_mono (L L' : Nat) (e : Bool) : ∀ fuel n st o, lzwGo L e fuel n st = .ok o →
+    n + o.length ≤ L' → lzwGo L' e fuel n st = .ok o := by
+  intro fuel n st
+  fun_induction lzwGo L e fuel n st <;> intro o h hl
+  all_goals (try simp_all [lzwGo])
+  all_goals
+    rw [Res.pre_ok] at h; obtain ⟨o', h1, rfl⟩ := h
+    rename_i ih
+    simp at hl
+    have := ih _ h1 (by omega)
+    simp [this, Res.pre]
+    try omega
+
+theorem lzwGo_mono_le (L L' : Nat) (hLL : L ≤ L') (e : Bool) : ∀ fuel n st o,
+    lzwGo L e fuel n st = .ok o → lzwGo L' e fuel n st = .ok o := by
+  intro fuel n st
+  fun_induction lzwGo L e fuel n st <;> intro o h
+  all_goals (try simp_all [lzwGo])
+  all_goals
+    rw [Res.pre_ok] at h; obtain ⟨o', h1, rfl⟩ := h
+    rename_i ih
+    have := ih _ h1
+    simp [this, Res.pre]
+    try omega
+
+/-! ### no panics in hex / RunLength / LZW -/
+
+theorem Res.pre_panic {xs : List Nat} {r : Res (List Nat)} {q : Pan} :
+    r.pre xs = .panic q ↔ r = .panic q := by
+  cases r <;> simp [Res.pre]
+
+theorem hexByte_no_panic (h l : Nat) (q : Pan) : hexByte h l ≠ .panic q := by
+  unfold hexByte; repeat' split
+  all_goals simp
+
+theorem hexGo_no_panic (L : Nat) (q : Pan) : ∀ n cs, hexGo L n cs ≠ .panic q := by
+  intro n cs
+  fun_induction hexGo L n cs
+  all_goals (try simp_all [Res.pre_panic])
+  all_goals (rename_i hb; exact absurd hb (hexByte_no_panic _ _ _))
+
+theorem rlGo_no_panic (L : Nat) (q : Pan) : ∀ fuel n d, rlGo L fuel n d ≠ .panic q := by
+  intro fuel n d
+  fun_induction rlGo L fuel n d
+  all_goals (try simp_all [Res.pre_panic])
+
+theorem lzwGo_no_panic (L : Nat) (e : Bool) (q : Pan) : ∀ fuel n st, lzwGo L e fuel n st ≠ .panic q := by
+  intro fuel n st
+  fun_induction lzwGo L e fuel n st
+  all_goals (try simp_all [Res.pre_panic])
+
+/-! ### read_to_end_limited -/
+
+theorem readToEndLimited_ok (L : Nat) : ∀ n cs o, readToEndLimited L n cs = .ok o ↔
+    (o = cs.flatten ∧ (cs = [] ∨ n + o.length ≤ L)) := by
+  intro n cs
+  induction cs generalizing n with
+  | nil => intro o; simp [readToEndLimited, eq_comm]
+  | cons c cs ih =>
+    intro o
+    simp only [readToEndLimited]
+    split
+    · simp; intro h; subst h; simp; omega
+    · rw [Res.pre_ok]
+      constructor
+      · rintro ⟨o', h1, rfl⟩
+        rw [ih] at h1
+        obtain ⟨rfl, h2⟩ := h1
+        refine ⟨by simp, Or.inr ?_⟩
+        rcases h2 with rfl | h2
+        · simp; omega
+        · simp at h2 ⊢; omega
+      · rintro ⟨rfl, h2⟩
+        refine ⟨cs.flatten, ?_, by simp⟩
+        rw [ih]
+        refine ⟨rfl, ?_⟩
+        rcases h2 with h2 | h2
+        · cases h2
+        · by_cases hc : cs = []
+          · exact Or.inl hc
+          · right; simp at h2 ⊢; omega
+
+/-! ### predictors never lengthen -/
+
+@[simp] theorem unfilterGo_length (t bpp prev) : ∀ seen row, (unfilterGo t bpp prev seen row).length = row.length := by
+  intro seen row
+  induction row generalizing seen with
+  | nil => simp [unfilterGo]
+  | cons y ys ih => simp [unfilterGo, ih]
+
+@[simp] theorem unfilterRow_length (t bpp prev row) : (unfilterRow t bpp prev row).length = row.length := by
+  simp [unfilterRow]
+
+theorem pngRows_le (bpp rb : Nat) : ∀ k prev data o, pngRows bpp rb k prev data = .ok o →
+    o.length ≤ data.length := by
+  intro k prev data
+  fun_induction pngRows bpp rb k prev data <;> intro o h
+  all_goals (try simp_all)
+  rw [Res.pre_ok] at h; obtain ⟨o', h1, rfl⟩ := h
+  rename_i ih; have := ih _ h1; simp at this ⊢; omega
+
+theorem pngAdvanced_le (data : List Nat) (d : Dict) (o) : pngAdvanced data d = .ok o →
+    o.length ≤ data.length := by
+  unfold pngAdvanced
+  simp only []
+  repeat' split
+  all_goals (intro h; first | (cases h; done) | exact pngRows_le _ _ _ _ _ _ h)
+
+theorem applyPredictor_le (data : List Nat) (p : Nat) (d : Dict) (o) :
+    applyPredictor data p d = .ok o → o.length ≤ data.length := by
+  unfold applyPredictor
+  repeat' split
+  all_goals (intro h; first | (cases h; exact Nat.le_refl _) | exact pngAdvanced_le _ _ _ h)
 
 end OxiVerif.Flt
